@@ -179,12 +179,12 @@ theorem handlePendingTasks_g3 {j0 : JobObj} {d : PIndex} {P : List PodObj} {N : 
         obtain ⟨t, ht, rfl⟩ := List.mem_map.mp hn
         exact ⟨t, (hinv t ht).1, rfl, (hinv t ht).2⟩
 
-theorem handleKillJob_g3 {j0 : JobObj} {d : PIndex} {P : List PodObj} {N : List String} (s : Sys) (rj : Job) (tasks : List Task)
+theorem handleKillJob_g3 {j0 : JobObj} {d : PIndex} {P : List PodObj} {N : List String} (s : Sys) (jo : JobObj) (rj : Job) (tasks : List Task)
     (hg : Good j0 d rj) (hok : RefsOK P N tasks rj.status.tasks) :
-    OutG3 j0 d P N tasks rj (handleKillJob s rj tasks).2 := by
+    OutG3 j0 d P N tasks rj (handleKillJob s jo rj tasks).2 := by
   unfold handleKillJob
   split
-  · exact some_g3 hg hok
+  · split <;> exact some_g3 hg hok
   · (try simp only)
     split
     · exact some_g3 hg hok
@@ -265,8 +265,8 @@ theorem syncJobTasks_g3 {j0 : JobObj} (sp : Sys) (jo : JobObj) (ctx : PassCtx j0
     | some rj3 =>
       (try simp only)
       have g3 := g2.trans (h3 rj3 rfl)
-      have h4 := handleKillJob_g3 s3 rj3 tasks1 g3.good g3.ok
-      generalize handleKillJob s3 rj3 tasks1 = r4 at h4 ⊢
+      have h4 := handleKillJob_g3 s3 jo rj3 tasks1 g3.good g3.ok
+      generalize handleKillJob s3 jo rj3 tasks1 = r4 at h4 ⊢
       obtain ⟨s4, o4⟩ := r4
       cases o4 with
       | none => (try simp only); intro h; cases h
@@ -334,50 +334,97 @@ theorem syncJobStatusFromTaskRefs_res {j0 : JobObj} {d : PIndex} {P : List PodOb
       · exact ⟨hres, this.1⟩
     · exact ⟨hres, this.1⟩
 
+/-- the tasks the finalizer deletes and waits for, seen from the start of the pass: the listed tasks
+that are found, and (repair of F-C20-1) the unrecorded tasks of the pod cache, whose names are not
+recorded -/
+theorem finalizerTasks_refsOK {j0 : JobObj} {sp : Sys} (ctx : PassCtx j0 sp) (N : List String) (jo : JobObj)
+    (rj : Job) (hg : Good j0 sp.d rj) (hrs : ∀ r ∈ rj.status.tasks, RS r)
+    (hfin : ∀ r ∈ rj.status.tasks, r.finishTimestamp.isSome = true → PodFinIn sp.pods r.name)
+    (hN : ∀ r ∈ rj.status.tasks, r.name ∈ N) (hNc : ∀ n ∈ podNames sp.podCache, n ∈ N) :
+    TasksGood j0 sp.d (finalizerTasks sp jo rj) ∧ TasksSem sp.pods N (finalizerTasks sp jo rj) ∧
+    RefsOK sp.pods N (finalizerTasks sp jo rj) rj.status.tasks ∧
+    ∀ n ∈ (finalizerTasks sp jo rj).map (·.name), n ∈ refNames rj ∨ n ∈ podNames sp.podCache := by
+  have htg0 := tasksForRefsConfirmed_good ctx.pods rj.status.tasks hg.nodup
+  have hsem0 := tasksForRefsConfirmed_refsOK ctx N rj.status.tasks hg.nodup hrs hfin hN
+  have hmem : ∀ t, t ∈ finalizerTasks sp jo rj ↔ t ∈ tasksForRefsConfirmed sp rj.status.tasks ∨
+      ∃ p ∈ sp.podCache, podTask p = some t ∧ p.jobLabel = some jo.uid ∧ p.ownerUid = some jo.uid ∧
+        (∀ t' ∈ tasksForRefsConfirmed sp rj.status.tasks, t'.name ≠ p.pod.name) ∧
+        (∀ r ∈ rj.status.tasks, r.name ≠ p.pod.name) := Furiko.JobCtlPlan.mem_finalizerTasks sp jo rj
+  have hT0n : ∀ t ∈ tasksForRefsConfirmed sp rj.status.tasks, t.name ∈ refNames rj := by
+    intro t ht
+    unfold tasksForRefsConfirmed at ht
+    obtain ⟨r, hr, hg'⟩ := List.mem_filterMap.mp ht
+    rw [(getTaskForRefConfirmed_ok hg').2]
+    exact List.mem_map_of_mem hr
+  refine ⟨?_, ⟨?_, ?_, ?_⟩, ?_, ?_⟩
+  · unfold finalizerTasks
+    exact adoptUnrecordedTasks_good sp _ _ ctx.pods htg0
+  · intro t ht
+    rcases (hmem t).mp ht with h | ⟨p, hp, hpt, _⟩
+    · exact hsem0.1.sem t h
+    · exact (newTask_sem ctx (jo := jo) (names := [t.name]) ⟨by simp, p, hpt, Or.inr hp⟩).1
+  · intro t ht hf
+    rcases (hmem t).mp ht with h | ⟨p, hp, hpt, _⟩
+    · exact hsem0.1.fin t h hf
+    · exact (newTask_sem ctx (jo := jo) (names := [t.name]) ⟨by simp, p, hpt, Or.inr hp⟩).2.1 hf
+  · intro t ht hf
+    rcases (hmem t).mp ht with h | ⟨p, hp, hpt, _⟩
+    · exact hsem0.1.src t h hf
+    · exact hNc _ ((newTask_sem ctx (jo := jo) (names := [t.name]) ⟨by simp, p, hpt, Or.inr hp⟩).2.2 hf)
+  · refine hsem0.2.mono (fun t ht => (hmem t).mpr (Or.inl ht)) ?_
+    intro t ht
+    rcases (hmem t).mp ht with h | ⟨p, hp, hpt, _, _, _, hnr⟩
+    · exact Or.inl h
+    · right
+      intro hm
+      obtain ⟨r, hr, hrn⟩ := List.mem_map.mp hm
+      exact hnr r hr (hrn.trans (podTask_ok hpt).2)
+  · intro n hn
+    obtain ⟨t, ht, rfl⟩ := List.mem_map.mp hn
+    rcases (hmem t).mp ht with h | ⟨p, hp, hpt, _⟩
+    · exact Or.inl (hT0n t h)
+    · right
+      rw [(podTask_ok hpt).2]
+      exact List.mem_map_of_mem hp
+
 theorem handleFinalizer_res {j0 : JobObj} (sp s : Sys) (jo : JobObj) (rj : Job) (fz : Bool) (N : List String)
     (ctx : PassCtx j0 sp)
     (hfr : rj.deletionTimestamp.isSome = true → Frame sp s) (hg : Good j0 sp.d rj)
     (hrs : ∀ r ∈ rj.status.tasks, RS r)
     (hfin : ∀ r ∈ rj.status.tasks, r.finishTimestamp.isSome = true → PodFinIn sp.pods r.name)
-    (hN : ∀ r ∈ rj.status.tasks, r.name ∈ N) :
+    (hN : ∀ r ∈ rj.status.tasks, r.name ∈ N) (hNc : ∀ n ∈ podNames sp.podCache, n ∈ N) :
     ∀ rj1 fz1, (handleFinalizer s jo rj fz).2 = some (rj1, fz1) →
-      SyncRes j0 sp.d sp.pods N rj rj1 ∧ ∀ n ∈ refNames rj1, n ∈ refNames rj := by
+      SyncRes j0 sp.d sp.pods N rj rj1 ∧
+      (∀ n ∈ refNames rj1, n ∈ refNames rj ∨ n ∈ podNames sp.podCache) ∧
+      (rj.deletionTimestamp = none → rj1 = rj) := by
   intro rj1 fz1
   unfold handleFinalizer
   split
-  · intro h; cases h; exact ⟨SyncRes.refl hg hrs hfin hN, fun n hn => hn⟩
+  · intro h; cases h; exact ⟨SyncRes.refl hg hrs hfin hN, fun n hn => Or.inl hn, fun _ => rfl⟩
   · rename_i hdn
     have hds : rj.deletionTimestamp.isSome = true := by cases hx : rj.deletionTimestamp <;> simp_all
+    have hnn : rj.deletionTimestamp = none → rj1 = rj := fun h => by rw [h] at hds; cases hds
     have hf := hfr hds
     split
-    · intro h; cases h; exact ⟨SyncRes.refl hg hrs hfin hN, fun n hn => hn⟩
+    · intro h; cases h; exact ⟨SyncRes.refl hg hrs hfin hN, fun n hn => Or.inl hn, fun _ => rfl⟩
     · (try simp only)
-      have hT : tasksForRefsConfirmed s rj.status.tasks = tasksForRefsConfirmed sp rj.status.tasks :=
-        tasksForRefs_frame hf _
+      have hT : finalizerTasks s jo rj = finalizerTasks sp jo rj := finalizerTasks_frame hf jo rj
       rw [hT]
-      have htg := tasksForRefsConfirmed_good ctx.pods rj.status.tasks hg.nodup
-      have hsem := tasksForRefsConfirmed_refsOK ctx N rj.status.tasks hg.nodup hrs hfin hN
-      have hTn : ∀ n ∈ (tasksForRefsConfirmed sp rj.status.tasks).map (·.name), n ∈ refNames rj := by
-        intro n hn
-        obtain ⟨t, ht, rfl⟩ := List.mem_map.mp hn
-        unfold tasksForRefsConfirmed at ht
-        obtain ⟨r, hr, hg'⟩ := List.mem_filterMap.mp ht
-        rw [(getTaskForRefConfirmed_ok hg').2]
-        exact List.mem_map_of_mem hr
-      have names_of : ∀ {b : Job}, G3 j0 sp.d sp.pods N (tasksForRefsConfirmed sp rj.status.tasks) rj b →
-          ∀ n ∈ refNames b, n ∈ refNames rj := by
+      obtain ⟨htg, hsem1, hsem2, hTn⟩ := finalizerTasks_refsOK ctx N jo rj hg hrs hfin hN hNc
+      have names_of : ∀ {b : Job}, G3 j0 sp.d sp.pods N (finalizerTasks sp jo rj) rj b →
+          ∀ n ∈ refNames b, n ∈ refNames rj ∨ n ∈ podNames sp.podCache := by
         intro b hb n hn
         rcases hb.names n hn with h | h
-        · exact h
+        · exact Or.inl h
         · exact hTn n h
       split
       · have hk := foldl_deletedStatus_g3 (j0 := j0) (d := sp.d) (P := sp.pods) (N := N)
-          (T := tasksForRefsConfirmed sp rj.status.tasks) (tasksForRefsConfirmed sp rj.status.tasks) rj hg hsem.2
-        have h1 := updateTaskRefStatus_g3 s (jobKey jo) _ hk.good hk.ok htg hsem.1
-        generalize updateTaskRefStatus s (jobKey jo) _ (tasksForRefsConfirmed sp rj.status.tasks) = r1 at h1 ⊢
+          (T := finalizerTasks sp jo rj) (finalizerTasks sp jo rj) rj hg hsem2
+        have h1 := updateTaskRefStatus_g3 s (jobKey jo) _ hk.good hk.ok htg hsem1
+        generalize updateTaskRefStatus s (jobKey jo) _ (finalizerTasks sp jo rj) = r1 at h1 ⊢
         obtain ⟨s1, rj2⟩ := r1
         (try simp only)
-        generalize deleteTasks s1 (tasksForRefsConfirmed sp rj.status.tasks) false = r2
+        generalize deleteTasks s1 (finalizerTasks sp jo rj) false = r2
         obtain ⟨s2, ok⟩ := r2
         (try simp only)
         intro h
@@ -386,19 +433,19 @@ theorem handleFinalizer_res {j0 : JobObj} (sp s : Sys) (jo : JobObj) (rj : Job) 
         | true =>
           simp only [↓reduceIte, Option.some.injEq, Prod.mk.injEq] at h
           obtain ⟨rfl, _⟩ := h
-          exact ⟨(hk.trans h1).res, names_of (hk.trans h1)⟩
+          exact ⟨(hk.trans h1).res, names_of (hk.trans h1), hnn⟩
       · rename_i hemp
-        have hnil : tasksForRefsConfirmed sp rj.status.tasks = [] := by
-          cases hx : tasksForRefsConfirmed sp rj.status.tasks <;> simp_all
-        rw [hnil] at hsem htg names_of
-        have h1 := updateTaskRefStatus_g3 s (jobKey jo) rj hg hsem.2 htg hsem.1
+        have hnil : finalizerTasks sp jo rj = [] := by
+          cases hx : finalizerTasks sp jo rj <;> simp_all
+        rw [hnil] at hsem1 hsem2 htg names_of
+        have h1 := updateTaskRefStatus_g3 s (jobKey jo) rj hg hsem2 htg hsem1
         generalize updateTaskRefStatus s (jobKey jo) rj [] = r1 at h1 ⊢
         obtain ⟨s1, rj1'⟩ := r1
         (try simp only)
         intro h
         simp only [Option.some.injEq, Prod.mk.injEq] at h
         obtain ⟨rfl, _⟩ := h
-        exact ⟨h1.res, names_of h1⟩
+        exact ⟨h1.res, names_of h1, hnn⟩
 
 theorem coh_of_deleted {d : PIndex} {j : Job} (h : j.deletionTimestamp.isSome = true) : Coh d j := by
   intro hn; rw [hn] at h; cases h
@@ -413,7 +460,9 @@ def passNames (sp : Sys) (jo : JobObj) : List String := refNames jo.job ++ podNa
 /-- The Job value a pass computes, relative to the cached Job it started from and the server's pods at
 the start: every ref satisfies `RS`; a ref is finished only if its pod is finished or gone, and only
 under an old name; finished refs are frozen; the admission-error annotation is untouched; and when the
-refreshed refs are complete (or the Job is not started / is being deleted) no name is added. -/
+refreshed refs are complete (or the Job is not started / is being deleted) every name is recorded
+before the pass or — only for a Job that is being deleted, whose finalizer adopts the unrecorded
+tasks of the pod cache — in the pod cache: for a Job that is not being deleted no name is added. -/
 theorem sync_res {j0 : JobObj} (sp : Sys) (jo : JobObj) (ctx : PassCtx j0 sp) (hwf : WF2 j0 sp.d)
     (hjo : VerOK j0 jo) (hg : Good j0 sp.d jo.job) (hrs : ∀ r ∈ jo.job.status.tasks, RS r)
     (hfin : ∀ r ∈ jo.job.status.tasks, r.finishTimestamp.isSome = true → PodFinIn sp.pods r.name)
@@ -423,7 +472,8 @@ theorem sync_res {j0 : JobObj} (sp : Sys) (jo : JobObj) (ctx : PassCtx j0 sp) (h
     (((getParallelTaskSummary sp.d jo.job (generateTaskRefs sp.clock jo.job.status.tasks
         (tasksForRefs sp jo.job.status.tasks))).complete = true ∨
       (isStarted jo.job && !isDeleted jo.job) = false) →
-      ∀ n ∈ refNames (sync sp jo).2.1, n ∈ refNames jo.job) ∧
+      (jo.job.deletionTimestamp = none → ∀ n ∈ refNames (sync sp jo).2.1, n ∈ refNames jo.job) ∧
+      ∀ n ∈ refNames (sync sp jo).2.1, n ∈ passNames sp jo) ∧
     Coh sp.d (sync sp jo).2.1 ∧
     ((sync sp jo).2.1 = jo.job ∨ ((sync sp jo).2.1.deletionTimestamp = none →
       (sync sp jo).2.1.status.condition = getCondition sp.clock sp.d (sync sp jo).2.1)) := by
@@ -479,7 +529,7 @@ theorem sync_res {j0 : JobObj} (sp : Sys) (jo : JobObj) (ctx : PassCtx j0 sp) (h
       else (sp, some jo.job)) = r1 at h1 hfr1 hd1 hc1 ⊢
   obtain ⟨s1, o1⟩ := r1
   cases o1 with
-  | none => (try simp only); exact ⟨hrefl, fun _ n hn => hn, hcoh, by simp⟩
+  | none => (try simp only); exact ⟨hrefl, fun _ => ⟨fun _ n hn => hn, fun n hn => List.mem_append_left _ hn⟩, hcoh, by simp⟩
   | some rj1 =>
     (try simp only)
     obtain ⟨hres1, hle1, heq1, hn1⟩ := h1 rj1 rfl
@@ -512,38 +562,52 @@ theorem sync_res {j0 : JobObj} (sp : Sys) (jo : JobObj) (ctx : PassCtx j0 sp) (h
           (match handleFinalizer s3 jo rj2 jo.finalizer with
             | (s4, none) => (s4, rj2, jo.finalizer, false, statusHasNullTime s1 rj1)
             | (s4, some (rj3, fin)) => (s4, rj3, fin, true,
-                match finalizerStatusInput s3 rj2 jo.finalizer with
+                match finalizerStatusInput s3 jo rj2 jo.finalizer with
                 | some inp => statusHasNullTime s3 inp
                 | none => statusHasNullTime s1 rj1)).2.1 ∧
         (((getParallelTaskSummary sp.d jo.job (generateTaskRefs sp.clock jo.job.status.tasks
             (tasksForRefs sp jo.job.status.tasks))).complete = true ∨
           (isStarted jo.job && !isDeleted jo.job) = false) →
+          (rj2.deletionTimestamp = none → ∀ n ∈ refNames (match handleFinalizer s3 jo rj2 jo.finalizer with
+            | (s4, none) => (s4, rj2, jo.finalizer, false, statusHasNullTime s1 rj1)
+            | (s4, some (rj3, fin)) => (s4, rj3, fin, true,
+                match finalizerStatusInput s3 jo rj2 jo.finalizer with
+                | some inp => statusHasNullTime s3 inp
+                | none => statusHasNullTime s1 rj1)).2.1, n ∈ refNames jo.job) ∧
           ∀ n ∈ refNames (match handleFinalizer s3 jo rj2 jo.finalizer with
             | (s4, none) => (s4, rj2, jo.finalizer, false, statusHasNullTime s1 rj1)
             | (s4, some (rj3, fin)) => (s4, rj3, fin, true,
-                match finalizerStatusInput s3 rj2 jo.finalizer with
+                match finalizerStatusInput s3 jo rj2 jo.finalizer with
                 | some inp => statusHasNullTime s3 inp
-                | none => statusHasNullTime s1 rj1)).2.1, n ∈ refNames jo.job) ∧
+                | none => statusHasNullTime s1 rj1)).2.1, n ∈ passNames sp jo) ∧
         (rj2.deletionTimestamp.isSome = true →
           (match handleFinalizer s3 jo rj2 jo.finalizer with
             | (s4, none) => (s4, rj2, jo.finalizer, false, statusHasNullTime s1 rj1)
             | (s4, some (rj3, fin)) => (s4, rj3, fin, true,
-                match finalizerStatusInput s3 rj2 jo.finalizer with
+                match finalizerStatusInput s3 jo rj2 jo.finalizer with
                 | some inp => statusHasNullTime s3 inp
                 | none => statusHasNullTime s1 rj1)).2.1.deletionTimestamp.isSome = true) := by
       intro s3 hfr hN
       have hle4 := (handleFinalizer_spec s3 jo sp rj2 jo.finalizer).2
       have h4 := handleFinalizer_res sp s3 jo rj2 jo.finalizer (passNames sp jo) ctx hfr h2.1.good h2.1.rs
-        h2.1.fin hN
+        h2.1.fin hN (fun n hn => List.mem_append_right _ hn)
       generalize handleFinalizer s3 jo rj2 jo.finalizer = r4 at h4 hle4 ⊢
       obtain ⟨s4, o4⟩ := r4
       cases o4 with
-      | none => exact ⟨h2.1, hn2, fun h => h⟩
+      | none => exact ⟨h2.1, fun hc => ⟨fun _ => hn2 hc, fun n hn => List.mem_append_left _ (hn2 hc n hn)⟩, fun h => h⟩
       | some v =>
         obtain ⟨rj3, fz⟩ := v
-        obtain ⟨hres4, hn4⟩ := h4 rj3 fz rfl
-        exact ⟨h2.1.trans hres4, fun hc n hn => hn2 hc n (hn4 n hn),
+        obtain ⟨hres4, hn4, heq4⟩ := h4 rj3 fz rfl
+        refine ⟨h2.1.trans hres4, fun hc => ⟨fun hnd n hn => ?_, fun n hn => ?_⟩,
           fun h => by show rj3.deletionTimestamp.isSome = true; rw [(hle4 rj3 fz rfl).del]; exact h⟩
+        · show n ∈ refNames jo.job
+          have hn' : n ∈ refNames rj3 := hn
+          rw [heq4 hnd] at hn'
+          exact hn2 hc n hn'
+        · show n ∈ passNames sp jo
+          rcases hn4 n hn with h | h
+          · exact List.mem_append_left _ (hn2 hc n h)
+          · exact List.mem_append_right _ h
     by_cases hd2 : rj2.deletionTimestamp.isSome = true
     · have hdj : isDeleted jo.job = true := by
         unfold isDeleted; rw [← hle1.del, ← hle2.2.del]; exact hd2
@@ -556,13 +620,18 @@ theorem sync_res {j0 : JobObj} (sp : Sys) (jo : JobObj) (ctx : PassCtx j0 sp) (h
         rw [h2.2, heq1 hc] at hr
         exact hN0 r hr
       obtain ⟨f1, f2, f3⟩ := fin4 s2 (fun _ => hs1 ▸ hle2.1) hN2
-      refine ⟨f1, f2, coh_of_deleted (f3 hd2), Or.inr ?_⟩
+      refine ⟨f1, fun hcnd => ⟨fun hnd => ?_, (f2 hcnd).2⟩, coh_of_deleted (f3 hd2), Or.inr ?_⟩
+      · exfalso
+        unfold isDeleted at hdj
+        rw [hnd] at hdj; cases hdj
       intro hnd
       exact absurd hnd (Option.isSome_iff_ne_none.mp (f3 hd2))
     · generalize handleTTL s2 jo rj2 = r3
       obtain ⟨s3, ok3⟩ := r3
       cases ok3 with
-      | false => (try simp only); exact ⟨h2.1, hn2, hcoh2, Or.inr heq2⟩
+      | false =>
+        (try simp only)
+        exact ⟨h2.1, fun hc => ⟨fun _ => hn2 hc, fun n hn => List.mem_append_left _ (hn2 hc n hn)⟩, hcoh2, Or.inr heq2⟩
       | true =>
         (try simp only)
         -- not being deleted: `handleFinalizer` returns the Job unchanged
@@ -571,6 +640,6 @@ theorem sync_res {j0 : JobObj} (sp : Sys) (jo : JobObj) (ctx : PassCtx j0 sp) (h
           have : rj2.deletionTimestamp.isNone = true := by cases hx : rj2.deletionTimestamp <;> simp_all
           simp [this]
         rw [hret]
-        exact ⟨h2.1, hn2, hcoh2, Or.inr heq2⟩
+        exact ⟨h2.1, fun hc => ⟨fun _ => hn2 hc, fun n hn => List.mem_append_left _ (hn2 hc n hn)⟩, hcoh2, Or.inr heq2⟩
 
 end Furiko.JobCtl
